@@ -77,6 +77,9 @@ def mk_report(ir, idx, cat_term, code, nids, id_terms, rng=None):
 
 def run_task(task):
     pr = prog()
+    if task['kind'] == 'orders':
+        from . import C09
+        return C09.run_task(task['t'])
     if task['kind'] == 'runner':
         from . import runner_h
         return runner_h.run_task(pr, task)
@@ -232,6 +235,11 @@ def main(tier, replay=None, prop='C03'):
     rep = common.Report(prop, tier)
     if replay:
         d = json.load(open(replay))
+        if d['scenario'].get('kind') == 'orders':
+            t = dict(d['scenario']['task']['t']); sh = d['violation']['model'].get('shape', 0); t.update(lo=sh, hi=sh + 1)
+            from . import C09
+            r = C09.run_task(t); bad = bool(r['violations'])
+            print('replay (re-execution of program %d under the three iteration orders): -> %s' % (sh, 'VIOLATION' if bad else 'holds')); return 1 if bad else 0
         bad, got, exp = confirm(d['scenario'])
         print('replay: observed=%s expected=%s -> %s' % (got, exp, 'VIOLATION' if bad else 'holds'))
         return 1 if bad else 0
@@ -258,6 +266,16 @@ def main(tier, replay=None, prop='C03'):
         rep.add_stats(r['stats'])
         for v in r['violations']:
             t = r['task']
+            if t['kind'] == 'orders':
+                role = {'function': 'run_side_effect_analysis', 'kind': v['kind'], 'class': 'hash-order'}; key = json.dumps(role, sort_keys=True)
+                if key in seen: continue
+                seen[key] = 1
+                k = common.match_known(known, role)
+                if k: rep.known_hits.append('%s (%s)' % (k['id'], v['msg'][:200]))
+                else:
+                    rep.violations.append(rep.save_replay(role, {'property': prop, 'scenario': {'kind': 'orders', 'task': t}, 'violation': v}))
+                    common.log('VIOLATION detail:', v['msg'][:600])
+                continue
             if t['kind'] == 'runner':
                 from . import runner_h
                 sc = runner_h.scenario_of(t, v)
@@ -283,7 +301,8 @@ def main(tier, replay=None, prop='C03'):
         rep.bounds = {'definitions': '%d definitions (templates, functions), every storage/analysis order, each in a user or an included file, 0-2 CFG-stage reports, lift succeeding or failing, each pass looking up any one definition or none' % (2 if tier == 'quick' else 3)}
         rep.stubs = ['generate_cfg (emits r fresh reports, then Ok or Err with one more)', 'get_analysis_passes (one pass: one fresh report + one symbolic look-up through AnalysisContext)', 'writer (records)', 'TemplateData/FunctionData::get_file_id', 'FileLibrary::is_user_input']
         rep.assumptions = ['HashMap<String,_> modelled as an association list whose iteration order is the harness-chosen permutation', 'source hash ' + pr.hashes['analysis']]
-        rep.outside = ['hash-map iteration orders inside the analysis passes', 'SSA naming across runs', 'file order on the command line', 'unrelated extra definitions beyond the bound']
+        rep.bounds['hash orders'] = 'the whole side-effect pass (taint, constraint analysis, branch regions) on the programs of C09 under three iteration orders of every HashMap / HashSet (insertion, reverse, rotated): same multiset of claims'
+        rep.outside = ['all other iteration orders and the other passes', 'SSA naming across runs', 'file order on the command line beyond the equal-code scenarios', 'unrelated extra definitions beyond the bound']
         return rep.finish()
     rep.bounds = {'reports': '<= %d reports offered to the writer in three batches (parser, functions, templates), each with symbolic level, 0-2 primary labels over %d files, id from %s' % (2 if tier == 'quick' else 3, NFILES, sorted(IDS.values())),
                   'options': 'every --level, every set of user-supplied files, --allow lists %s, SARIF on/off, verbose on/off, SARIF serialisation succeeding or failing' % ALLOW_LISTS}
